@@ -401,6 +401,10 @@ def rule_inputs_shared(ck):
     ck.clause('D3 (shared C11-D1/D4: the rates that are scored)')
     c11.rule_scaling(ck)
     c11.rule_axes(ck)
+    # rates and observation are paired bin by bin after flattening: both row-major, whatever the memory layout of the arrays
+    from . import c05
+    ck.clause('D3 (shared C05-D4.order: row-major flattening in the kernels)')
+    c05.rule_flatten_order(ck)
 
 
 RULES = [rule_masked, rule_indicator, rule_binary_formula, rule_brier_formula, rule_isomorphism, rule_public, rule_cell_maps, rule_own_magnitudes_shared, rule_precision, rule_inputs_shared]
